@@ -18,6 +18,13 @@ pub fn starts() -> Vec<Start> {
         s("two-documents", vec![A::doc(vec![A::el("", "a").child(A::el("", "b"))]), A::doc(vec![A::el("", "c").attr(X, "l", "1").decl("p", X).child(A::text("t"))])]),
         s("fragment-text-first-last", vec![A::doc(vec![A::text("x"), A::el("", "a"), A::text("y")]), A::comment("c"), A::pi("pi", None)]),
         Start { name: "parsed-with-xml-ids".into(), forest: vec![A::el("", "e").child(A::text("t"))], adjacent_text: false, consolidation: true, parse: vec![1] },
+        Start {
+            name: "adjacent-text-run (built with consolidation off, now on)".into(),
+            forest: vec![A::doc(vec![A::el("", "a").child(A::text("a")).child(A::text("b")).child(A::text("c")).child(A::el("", "e")).child(A::text("d"))]), A::text("u")],
+            adjacent_text: true,
+            consolidation: true,
+            parse: vec![],
+        },
         s("single-text-child", vec![A::doc(vec![A::el("", "a").child(A::text("x")).child(A::el("", "b").child(A::text("y")))]), A::el("", "e"), A::text(" ")]),
     ]
 }
